@@ -20,6 +20,12 @@ func init() {
 		0x10000, 0x103ff, 0x1f400, 0x3ffff, 0x40000, 0xfffff, 0x100000, 0x10fc00, 0x10ffff} {
 		Strs = append(Strs, string(r), "a"+string(r)+"b")
 	}
+	// plain ASCII of every length class of the 8-byte scanning window whose only special byte is the last
+	for _, L := range []int{1, 7, 8, 9, 10, 15, 16, 17, 23, 25} {
+		for _, sp := range []string{`"`, `\`, "\n", "\x01", "<", "\x7f", "\xff"} {
+			Strs = append(Strs, "abcdefghijklmnopqrstuvwxyz"[:L-1]+sp)
+		}
+	}
 	Strs = append(Strs, "\xc0\x80", "\xc1\xbf", "\xc2", "\xdf", "\xe0\x80\x80", "\xe0\x9f\xbf", "\xe0\xa0", "\xed\x9f", "\xed\xbf\xbf",
 		"\xee\x80", "\xf0\x80\x80\x80", "\xf0\x8f\xbf\xbf", "\xf0\x90\x80", "\xf4\x8f\xbf", "\xf4\x90\x80\x80", "\xf4\xbf\xbf\xbf", "\xf5\x80\x80\x80",
 		"\xf8\x88\x80\x80\x80", "\xe2\x82", "\xf0\x9f\x98", "\x80", "\xbf", "\xfe", "x\xf4\x90\x80\x80y", "x\xed\xa0\x80y")
